@@ -1,18 +1,30 @@
 #!/bin/bash
 # usage: tools/seedtest.sh <worktree> <check-ids...>
 # 1. verifies in the scratch worktree that the patch builds and passes the existing tests
-# 2. applies the patch to /repo, runs the given checks (quick), reverts /repo
+# 2. runs the given checks (quick) against the patched worktree (VERIF_REPO), /repo is not touched
+#    (APPLY=1: apply the patch to /repo instead, run, revert - only when no other check is running)
 set -u
 export GOFLAGS=-mod=mod GOPROXY=off GOSUMDB=off GOTOOLCHAIN=local
 wt=$1; shift
 patch=$wt/SEED/patch.diff
 [ -f "$patch" ] || { echo "no patch"; exit 2; }
-( cd $wt && git checkout -q -- . && git apply $patch && go build ./... && go test -vet=off -count=1 $(go list ./... | grep -v /SEED) 2>&1 | grep -v "^ok\|no test files" ; echo "tests-with-patch rc=${PIPESTATUS[0]}"; git checkout -q -- . )
-cd /repo && git status --short | grep -v '^??' && { echo "/repo dirty"; exit 2; }
-git -C /repo apply $patch 2>/dev/null || git -C /repo apply --3way $patch || { echo "patch does not apply to /repo"; exit 2; }
-git -C /repo reset -q
+( cd $wt && git checkout -q -- . && git apply $patch && go build ./... && go test -vet=off -count=1 $(go list ./... | grep -v /SEED) 2>&1 | grep -v "^ok\|no test files" ; echo "tests-with-patch rc=${PIPESTATUS[0]}" )
+if [ "${APPLY:-0}" = 1 ]; then
+  ( cd $wt && git checkout -q -- . )
+  cd /repo && git status --short | grep -v '^??' && { echo "/repo dirty"; exit 2; }
+  git -C /repo apply $patch 2>/dev/null || git -C /repo apply --3way $patch || { echo "patch does not apply to /repo"; exit 2; }
+  git -C /repo reset -q
+else
+  # bring the worktree to /repo's HEAD plus the patch
+  ( cd $wt && git checkout -q -- . && git checkout -q --detach $(git -C /repo rev-parse HEAD) && { git apply $patch 2>/dev/null || git apply --3way $patch; } ) || { echo "patch does not apply to HEAD"; exit 2; }
+  export VERIF_REPO=$wt
+fi
 for id in "$@"; do
   ( cd /verif && ./check $id ${TIER:-quick} 2>&1 | cut -c1-220 | grep -E "^VIOLATION|^OK|^KNOWN|INFRA|inconclusive" | head -6; echo "check $id rc=${PIPESTATUS[0]}" )
 done
-git -C /repo checkout -q -- .
-git -C /repo status --short | grep -v '^??'
+if [ "${APPLY:-0}" = 1 ]; then
+  git -C /repo checkout -q -- .
+  git -C /repo status --short | grep -v '^??'
+else
+  ( cd $wt && git reset -q && git checkout -q -- . )
+fi
